@@ -180,6 +180,11 @@ def run(ctx):
                                                           "position::Position::<'i>::span", "span::Span::<'i>::new_unchecked",
                                                           "position::Position::<'i>::new_unchecked"])
     rsv.require(6, "constructors")
+    # building the error of a failed parse slices the line of the failure position: line_of / line_col / find_line_* must cut on
+    # character boundaries as pest's do (seed C12-8: a truncating newline test made line_of slice inside a character)
+    rln = ctx.rule("R09-LINES", "the line helpers the error report slices with are pest's (C12's instances)")
+    c12_c13.compare_pairs(ctx, rln, facts.load("core"), ["position::Position::<'i>::line_col", "position::Position::<'i>::line_of", "position::Position::<'i>::find_line_start", "position::Position::<'i>::find_line_end"])
+    rln.require(4, "helpers")
     ctx.assume("panic-freedom as such is not decided: the discharge reasons are reviewed arguments (tables/*.json), several rest on the "
                "cursor invariant (char boundary, within start..end) which follows from the R09-UNSAFE entries only informally")
     ctx.assume("calls into pest, core, alloc, unicode-width are trusted not to panic on valid arguments")
